@@ -19,7 +19,7 @@ from .common import HarnessError, digest_obj, jdump
 
 VERIF = os.path.dirname(os.path.dirname(os.path.abspath(__file__)))
 DEFAULT_SEEDS = {}
-RUN_TIMEOUT_S = 300
+RUN_TIMEOUT_S = 900
 
 
 def load(prop_id):
